@@ -47,8 +47,11 @@ impl Scenario for Lifecycle {
     fn rule(&self) -> String {
         "seeded lifecycle runs (archive × codec × sync/async writer and reader × transfer/pending policies); distinct = distinct serialized cases; non-trivial = at least one tile and a non-plain schedule on writer or reader disk".into()
     }
-    fn generate(&self, rng: &mut Rng, _tier: Tier, _run: u64) -> Value {
-        let size = if rng.chance(self.window_pct) {
+    fn generate(&self, rng: &mut Rng, _tier: Tier, run: u64) -> Value {
+        let size = if run == 0 && (self.prop == "C02" || self.prop == "C06") {
+            // exactly one archive per batch that is large enough for the leaf-size loop to matter
+            SizeClass::Colossal
+        } else if rng.chance(self.window_pct) {
             SizeClass::Window
         } else if self.prop == "C10" && rng.below(3000) == 0 {
             SizeClass::Gigantic
@@ -59,7 +62,7 @@ impl Scenario for Lifecycle {
         } else {
             draw_size(rng, self.huge_pct)
         };
-        let ic = if size == SizeClass::Gigantic { *rng.pick(&[1u8, 2, 4]) } else if size == SizeClass::ManyRegular { *rng.pick(&[2u8, 4, 2, 4, 1]) } else { draw_ic(rng, size == SizeClass::Huge || size == SizeClass::Window) };
+        let ic = if size == SizeClass::Colossal { 1 } else if size == SizeClass::Gigantic { *rng.pick(&[1u8, 2, 4]) } else if size == SizeClass::ManyRegular { *rng.pick(&[2u8, 4, 2, 4, 1]) } else { draw_ic(rng, size == SizeClass::Huge || size == SizeClass::Window) };
         let a = draw_archive(rng, size, ic);
         let wface = Face::draw(rng);
         let rface = Face::draw(rng);
@@ -67,7 +70,8 @@ impl Scenario for Lifecycle {
         to_value(&LifeCase { a, wface, rface, sched, scramble: rng.next_u64() })
     }
     fn execute(&self, case: &Value, ctx: &mut Ctx) -> V<()> {
-        let c: LifeCase = from_value(case);
+        let mut c: LifeCase = from_value(case);
+        c.a.materialise();
         let nontrivial = !c.a.tiles.is_empty() && !(c.sched.w.is_plain() && c.sched.r.is_plain());
         if nontrivial {
             ctx.sig(case_sig(case));
